@@ -26,9 +26,9 @@ def diskDecls : List (String × String) :=
    ("func FileDisk.Barrier", "func (d FileDisk) () { err := ‹golang.org/x/sys/unix›.Fsync(d.fd) if err != nil { panic(\"file sync failed: \" + err.Error()) } }"),
    ("func FileDisk.Close", "func (d FileDisk) () { err := ‹golang.org/x/sys/unix›.Close(d.fd) if err != nil { panic(err) } }"),
    ("func FileDisk.Read", "func (d FileDisk) (a uint64) Block { buf := make([]byte, BlockSize) d.ReadTo(a, buf) return buf }"),
-   ("func FileDisk.ReadTo", "func (d FileDisk) (a uint64, buf Block) { if uint64(len(buf)) != BlockSize { panic(\"buffer is not block-sized\") } if a >= d.numBlocks { panic(‹fmt›.Errorf(\"out-of-bounds read at %v\", a)) } _, err := ‹golang.org/x/sys/unix›.Pread(d.fd, buf, int64(a*BlockSize)) if err != nil { panic(\"read failed: \" + err.Error()) } }"),
+   ("func FileDisk.ReadTo", "func (d FileDisk) (a uint64, buf Block) { if uint64(len(buf)) != BlockSize { panic(\"buffer is not block-sized\") } if a >= d.numBlocks { panic(‹fmt›.Errorf(\"out-of-bounds read at %v\", a)) } off := int64(a * BlockSize) for n := 0; n < len(buf); { k, err := ‹golang.org/x/sys/unix›.Pread(d.fd, buf[n:], off+int64(n)) if err != nil { panic(\"read failed: \" + err.Error()) } if k == 0 { panic(‹fmt›.Errorf(\"read failed: short read of block %v (%d bytes)\", a, n)) } n += k } }"),
    ("func FileDisk.Size", "func (d FileDisk) () uint64 { return d.numBlocks }"),
-   ("func FileDisk.Write", "func (d FileDisk) (a uint64, v Block) { if uint64(len(v)) != BlockSize { panic(‹fmt›.Errorf(\"v is not block sized (%d bytes)\", len(v))) } if a >= d.numBlocks { panic(‹fmt›.Errorf(\"out-of-bounds write at %v\", a)) } _, err := ‹golang.org/x/sys/unix›.Pwrite(d.fd, v, int64(a*BlockSize)) if err != nil { panic(\"write failed: \" + err.Error()) } }"),
+   ("func FileDisk.Write", "func (d FileDisk) (a uint64, v Block) { if uint64(len(v)) != BlockSize { panic(‹fmt›.Errorf(\"v is not block sized (%d bytes)\", len(v))) } if a >= d.numBlocks { panic(‹fmt›.Errorf(\"out-of-bounds write at %v\", a)) } off := int64(a * BlockSize) for n := 0; n < len(v); { k, err := ‹golang.org/x/sys/unix›.Pwrite(d.fd, v[n:], off+int64(n)) if err != nil { panic(\"write failed: \" + err.Error()) } if k == 0 { panic(‹fmt›.Errorf(\"write failed: short write of block %v (%d bytes)\", a, n)) } n += k } }"),
    ("func Get", "func () Disk { return implicitDisk }"),
    ("func Init", "func (d Disk) { implicitDisk = d }"),
    ("func MemDisk.Barrier", "func (d MemDisk) () { }"),
@@ -56,9 +56,9 @@ def diskCalls : List (String × String) :=
    ("FileDisk.Barrier", "golang.org/x/sys/unix.Fsync(_)"),
    ("FileDisk.Close", "golang.org/x/sys/unix.Close(_)"),
    ("FileDisk.Read", ""),
-   ("FileDisk.ReadTo", "fmt.Errorf(_,_) ; golang.org/x/sys/unix.Pread(_,_,_)"),
+   ("FileDisk.ReadTo", "fmt.Errorf(_,_) ; golang.org/x/sys/unix.Pread(_,_,_) ; fmt.Errorf(_,_,_)"),
    ("FileDisk.Size", ""),
-   ("FileDisk.Write", "fmt.Errorf(_,_) ; fmt.Errorf(_,_) ; golang.org/x/sys/unix.Pwrite(_,_,_)"),
+   ("FileDisk.Write", "fmt.Errorf(_,_) ; fmt.Errorf(_,_) ; golang.org/x/sys/unix.Pwrite(_,_,_) ; fmt.Errorf(_,_,_)"),
    ("Get", ""),
    ("Init", ""),
    ("MemDisk.Barrier", ""),
